@@ -451,6 +451,46 @@ def c02_prepake_case(tid, n, relabel, newside, tamper_pake_too):
     return run, False, drained, ok
 
 
+def c09_unechoed_case(tid, k, j, side="A"):
+    """`side` queues k messages before the key is verified; the server is slow to read that side's frames, so its
+    version and the k messages are all written before any is stored; the server then reads j of them and the
+    connection is lost; after the reconnect everything un-echoed is submitted again.  The peer (behind an
+    order-preserving server) must still see versions first and the messages in order, each once."""
+    other = "B" if side == "A" else "A"
+    run = RealRun(tid, "c09-unechoed")
+    w = run.world
+    for c in ("A", "B"):
+        run.apply({"a": "ConnOpen", "c": c})
+        run.apply({"a": "AppSetCode", "c": c, "code": "4-alpha-beta"})
+    for i in range(k):
+        run.apply({"a": "AppSend", "c": side, "data": ("m:%s:%d" % (side, i)).encode().hex()})
+
+    def held(conn):
+        fr = conn.c2s[0]
+        return conn.client.name == side and fr.get("type") == "add" and fr.get("phase") != "pake"
+    for _ in range(400):
+        moved = False
+        for a in w.enabled(faults=False):
+            if a["a"] == "Serve" and held(w.conn(a["k"])):
+                continue
+            if a["a"] in ("Serve", "Deliver", "CloseDone"):
+                run.apply(a)
+                moved = True
+                break
+        if not moved:
+            break
+    conns = [c for c in w.conns if c.client.name == side and c.state == "open" and not c.closing]
+    ok = bool(conns) and len([f for f in conns[-1].c2s if f.get("type") == "add"]) >= min(k, 1) + 1
+    if conns:
+        conn = conns[-1]
+        for _ in range(j):
+            if conn.c2s:
+                run.apply({"a": "Serve", "k": conn.id})
+        run.apply({"a": "Drop", "k": conn.id})
+    drained = run.drain()
+    return run, bool(drained), drained, ok
+
+
 def c18_case(tid, k, j, how):
     """A lazy Deferred-mode application: the peer sends k messages, the application reads j of them, the wormhole
     closes (`how`), and every get_*() issued afterwards must fail - including get_message() with unread
@@ -947,6 +987,23 @@ def run_pipeline(prop, tier, v, quick):
                     records.append(run_.finish(drained, goal=goal))
             cov["c03_family_cases"] = 3 * len(fam)
             cov["c03_family_permuted"] = nperm
+        if prop in ("C18", "C09", "C03"):
+            n = nok = 0
+            for side in ("A", "B"):
+                for k_ in (1, 2, 3):
+                    for j_ in range(0, k_ + 2):
+                        tid += 1
+                        n += 1
+                        try:
+                            run_, goal, drained, ok = c09_unechoed_case(tid, k_, j_, side)
+                        except Exception as e:
+                            cov.setdefault("family_errors", []).append(repr(e)[:120])
+                            continue
+                        nok += bool(ok)
+                        runs[tid] = run_
+                        records.append(run_.finish(drained, goal=goal))
+            cov["unechoed_family_cases"] = n
+            cov["unechoed_family_as_intended"] = nok
         if prop == "C18":
             n = 0
             for how in ("happy", "wrong", "pending"):
